@@ -39,6 +39,7 @@ partial def q? : SExp → Option Q
     some (.seq (← c.bool?) (← qs? qs) (← s.nat?) (← o.bool?) (← b.rat?))
   | .list [.atom "not", q, b] => do some (.not (← q? q) (← b.rat?))
   | .list [.atom "const", q, s] => do some (.const (← q? q) (← s.rat?))
+  | .list [.atom "opq", f, c] => do some (.opq (← f.opt? SExp.nat?) (← c.natList?))
   | .list [.atom tag, x, y] =>
     match ck? tag, bk? tag with
     | some k, _ => do some (.comp k (← qs? x) (← y.rat?))
@@ -72,6 +73,7 @@ def showQ : Q → String
   | .not q b => s!"(not {showQ q} {showRat b})"
   | .bin k a b => s!"({showBK k} {showQ a} {showQ b})"
   | .const q s => s!"(const {showQ q} {showRat s})"
+  | .opq f c => s!"(opq {showOpt toString f} {showNatList c})"
 def showQs : List Q → String
   | [] => ""
   | [q] => showQ q
@@ -143,20 +145,38 @@ def seqRow? (e : SExp) : Option SeqRow := do
   | [c, s, o, qs, docs] => some ⟨← c.bool?, ← s.nat?, ← o.bool?, ← qs? qs, ← docs.natList?⟩
   | _ => none
 
+structure OpqRow where
+  code : List Nat
+  docs : List Nat
+
+def opqRow? (e : SExp) : Option OpqRow := do
+  match ← e.list? with
+  | [c, docs] => some ⟨← c.natList?, ← docs.natList?⟩
+  | _ => none
+
+def mkEnv (ds ms ss os : List SExp) : Option Env := do
+  let docs ← ds.mapM doc?
+  let mrows ← ms.mapM multiRow?
+  let srows ← ss.mapM seqRow?
+  let orows ← os.mapM opqRow?
+  some {
+    multi := fun k f t key x =>
+      mrows.any fun r => r.k == k && r.f == f && r.t == t && r.key == key && r.terms.contains x
+    bracket := bracketFn
+    seqPos := fun c s o qs d =>
+      srows.any fun r => r.cls == c && r.slop == s && r.ord == o && Q.beqList r.qs qs
+        && r.docs.contains d.id
+    opq := fun c d => orows.any fun r => r.code == c && r.docs.contains d.id
+    index := docs }
+
+/-- `(env (docs ..) (multi ..) (seq ..) [(opq ((code ..) (docid ..)) ..)])` -/
 def env? (e : SExp) : Option Env := do
   match ← e.list? with
   | [.atom "env", .list (.atom "docs" :: ds), .list (.atom "multi" :: ms), .list (.atom "seq" :: ss)] =>
-    let docs ← ds.mapM doc?
-    let mrows ← ms.mapM multiRow?
-    let srows ← ss.mapM seqRow?
-    some {
-      multi := fun k f t key x =>
-        mrows.any fun r => r.k == k && r.f == f && r.t == t && r.key == key && r.terms.contains x
-      bracket := bracketFn
-      seqPos := fun c s o qs d =>
-        srows.any fun r => r.cls == c && r.slop == s && r.ord == o && Q.beqList r.qs qs
-          && r.docs.contains d.id
-      index := docs }
+    mkEnv ds ms ss []
+  | [.atom "env", .list (.atom "docs" :: ds), .list (.atom "multi" :: ms), .list (.atom "seq" :: ss),
+      .list (.atom "opq" :: os)] =>
+    mkEnv ds ms ss os
   | _ => none
 
 def showTags (ts : List String) : String := "(" ++ " ".intercalate ts ++ ")"
@@ -209,6 +229,10 @@ def handle : List SExp → String
   | [.atom "accept", q] =>
     match q? q with
     | some q => showQ (acceptId q)
+    | none => "bad-op"
+  | [.atom "applyid", q] =>
+    match q? q with
+    | some q => showQ (applyId q)
     | none => "bad-op"
   | [.atom "field", q] =>
     match q? q with
